@@ -191,8 +191,14 @@ type poolSite struct {
 }
 
 func buildAlias(get *ssa.Call) *poolSite {
-	s := &poolSite{fn: get.Parent(), get: get, alias: map[ssa.Value]bool{get: true}, deriv: map[ssa.Value]bool{}}
-	work := []ssa.Value{get}
+	s := buildAliasFrom(get.Parent(), get)
+	s.get = get
+	return s
+}
+
+func buildAliasFrom(fn *ssa.Function, root ssa.Value) *poolSite {
+	s := &poolSite{fn: fn, alias: map[ssa.Value]bool{root: true}, deriv: map[ssa.Value]bool{}}
+	work := []ssa.Value{root}
 	for len(work) > 0 {
 		v := work[len(work)-1]
 		work = work[:len(work)-1]
@@ -306,6 +312,30 @@ func init() {
 				pnames = append(pnames, core.FuncName(f))
 			}
 			res.Notes = append(res.Notes, fmt.Sprintf("getter wrappers (computed): %v; putter wrappers (computed): %v", sortedStrs(gnames), sortedStrs(pnames)))
+			// putter wrappers: the parameter being handed back must not be touched after the primitive hand-back
+			// (the other goroutine may already own it), and must not be handed back twice
+			for fn, idxs := range pf.putters {
+				if fn.Blocks == nil {
+					continue
+				}
+				for pi := range idxs {
+					if pi >= len(fn.Params) {
+						continue
+					}
+					site := buildAliasFrom(fn, fn.Params[pi])
+					o := core.Obligation{Key: kc.Key("R-POOL", core.FuncName(fn), "hand-back of parameter "+fn.Params[pi].Name()), Pos: p.Pos(fn.Pos()), Nontrivial: true}
+					viol := checkPoolWalk(p, pf, site, fn.Blocks[0], 0, true)
+					if len(viol) == 0 {
+						o.Status = core.Discharged
+						o.Detail = "the state is not used after it was handed back and is handed back at most once"
+					} else {
+						o.Status = core.Violated
+						o.Detail = viol[0]
+						o.Path = viol
+					}
+					res.Obligations = append(res.Obligations, o)
+				}
+			}
 			for _, fn := range p.SrcFuncs() {
 				for _, b := range fn.Blocks {
 					for idx, in := range b.Instrs {
@@ -362,6 +392,12 @@ func sortedStrs(s []string) []string {
 
 // checkPoolSite walks all paths from the get instruction.
 func checkPoolSite(p *core.Prog, pf *poolFacts, s *poolSite, gb *ssa.BasicBlock, gi int) []string {
+	return checkPoolWalk(p, pf, s, gb, gi+1, false)
+}
+
+// checkPoolWalk: putterMode = the value is a parameter being handed back by a putter wrapper: reaching return while
+// still holding it is not a leak here (the nil early-return), only use-after-hand-back and double hand-back are checked.
+func checkPoolWalk(p *core.Prog, pf *poolFacts, s *poolSite, gb *ssa.BasicBlock, gi int, putterMode bool) []string {
 	var viol []string
 	seenViol := map[string]bool{}
 	add := func(msg string) {
@@ -398,7 +434,7 @@ func checkPoolSite(p *core.Prog, pf *poolFacts, s *poolSite, gb *ssa.BasicBlock,
 				visited[k] = true
 			}
 			in := b.Instrs[i]
-			if in == ssa.Instruction(s.get) {
+			if s.get != nil && in == ssa.Instruction(s.get) {
 				// came around a loop to the same get: the previous object must have been handed back
 				if held {
 					add(fmt.Sprintf("state obtained at %s is still held when the same get executes again (leak per iteration)", p.Pos(s.get.Pos())))
@@ -433,7 +469,7 @@ func checkPoolSite(p *core.Prog, pf *poolFacts, s *poolSite, gb *ssa.BasicBlock,
 					continue
 				}
 			case *ssa.Return:
-				if held {
+				if held && !putterMode {
 					returned := false
 					for _, r := range x.Results {
 						if s.alias[r] || s.alias[stripAlias(r)] {
@@ -482,7 +518,7 @@ func checkPoolSite(p *core.Prog, pf *poolFacts, s *poolSite, gb *ssa.BasicBlock,
 			walk(sc, 0, held, put)
 		}
 	}
-	walk(gb, gi+1, true, false)
+	walk(gb, gi, true, false)
 	return viol
 }
 
